@@ -594,6 +594,55 @@ def dead_code_premises(ctx):
                         f.line)
 
 
+def fold_returns(ctx):
+    """Constant folding replaces an expression by a *literal* holding its
+    value (or leaves it alone).  A fold() that returns one of the node's
+    operands changes what kind of expression the parent sees -- an argument
+    `+a` would become the variable `a` and be passed by reference."""
+    repo = ctx.repo
+    rule = 'C02.fold-replaces-only-by-literals'
+    ctx.rule(rule, 'every fold() method returns self, the result of the '
+             'inherited fold(), or a literal node built from the evaluated '
+             'value (NumericLiteral / StringLiteral); never a child '
+             'expression')
+    n = 0
+    lit = ('NumericLiteral', 'StringLiteral')
+    for f in repo.all_functions():
+        if f.name != 'fold' or f.cls is None or \
+                not f.module.name.startswith('qbee.'):
+            continue
+        from ..astutil import local_defs
+        defs = local_defs(f.node)
+        for r in walk_shallow(f.node):
+            if not isinstance(r, ast.Return) or r.value is None:
+                continue
+            n += 1
+            v = r.value
+            ok = False
+            if isinstance(v, ast.Name) and v.id == 'self':
+                ok = True
+            elif isinstance(v, ast.Call) and dotted(v.func) in lit:
+                ok = True
+            elif isinstance(v, ast.Call) and \
+                    unparse(v.func) == 'super().fold':
+                ok = True
+            elif isinstance(v, ast.Name) and v.id in defs and all(
+                    k == 'assign' and isinstance(d, ast.Call) and
+                    dotted(d.func) in lit for k, d in defs[v.id]):
+                ok = True
+            construct = f'{f.file}:{f.qualname}:return {unparse(v)[:40]}'
+            ctx.instance(rule, construct, sample={'ok': ok})
+            if not ok:
+                ctx.finding(rule, construct,
+                            f'{f.qualname} can return `{unparse(v)[:60]}`: '
+                            f'folding would replace the expression by '
+                            f'something other than a literal of its value '
+                            f'(an operand keeps its own kind, e.g. a '
+                            f'variable is then passed by reference)',
+                            f.file, r.lineno)
+    ctx.floor('return statements of fold() methods', n, 3)
+
+
 def run(ctx):
     ctx.clauses = [
         'folder == machine operator by operator (BinaryOp._eval_numeric, '
@@ -622,6 +671,7 @@ def run(ctx):
     rounding_agreement(ctx)
     peephole_guards(ctx)
     dead_code_premises(ctx)
+    fold_returns(ctx)
     from .. import peephole
     peephole.check(ctx, 'C02')
     return ('Structural clauses of C02 decided on the current source: '
